@@ -16,12 +16,16 @@ type relQuery struct {
 	Pred    string
 	Inverse bool
 	Scope   []string
+	More    []string // further start entities of the same query (outgoing queries only)
 }
 
 func (q relQuery) String() string {
 	d := "out"
 	if q.Inverse {
 		d = "in"
+	}
+	if len(q.More) > 0 {
+		return fmt.Sprintf("%s+%v %s %s %v", shortURI(markerToFull(q.Start)), shortAll(q.More), shortURI(markerToFull(q.Pred)), d, q.Scope)
 	}
 	return fmt.Sprintf("%s %s %s %v", shortURI(markerToFull(q.Start)), shortURI(markerToFull(q.Pred)), d, q.Scope)
 }
@@ -212,7 +216,11 @@ func (r *SeqRun) startPaged(q relQuery, limit int) *Violation {
 		p = h.curie(p)
 	}
 	at := time.Now().UnixNano()
-	from, err := h.Store.ToRelatedFrom([]string{h.curie(q.Start)}, p, q.Inverse, q.Scope, at)
+	starts := []string{h.curie(q.Start)}
+	for _, m := range q.More {
+		starts = append(starts, h.curie(m))
+	}
+	from, err := h.Store.ToRelatedFrom(starts, p, q.Inverse, q.Scope, at)
 	if err != nil || len(from) == 0 || from[0] == nil {
 		return nil
 	}
